@@ -154,7 +154,7 @@ fn chain(ctx: &mut Ctx, prop: &'static str) -> R {
         k /= 2;
         resp_body0 = k % 2 == 1;
     }
-    let version = if prop == "C15" { 11 } else { version };
+    let version = if prop == "C15" { if matches!(method.as_str(), "GET" | "HEAD" | "POST") && ctx.chance(1, 4) { 10 } else { 11 } } else { version };
     if method.is_empty() {
         method = loop {
             let m = *ctx.pick(&METHODS);
@@ -372,11 +372,20 @@ fn chain(ctx: &mut Ctx, prop: &'static str) -> R {
         if plan.truth == RF::Close {
             // a final 200 without framing: close-delimited empty body
         }
-        let stream = plan.bytes();
+        let mut stream = plan.bytes();
+        let mut shift = 0usize;
+        if prop == "C15" && ctx.chance(1, 15) {
+            // an interim 100 nobody asked for precedes the response
+            let mut s2 = b"HTTP/1.1 100 Continue\r\n\r\n".to_vec();
+            shift = s2.len();
+            s2.extend_from_slice(&stream);
+            stream = s2;
+            ctx.count("f:peer_unsolicited_100");
+        }
         let sliced = ctx.chance(1, 4) || prop == "C02";
         let mut arrivals = if sliced { gen_arrival(ctx, stream.len(), &plan.line_ends, 60).0 } else { vec![stream.len()] };
         if let Some((a, b)) = plan.protected() {
-            arrivals.retain(|p| !(*p >= a && *p < b));
+            arrivals.retain(|p| !(*p >= a + shift && *p < b + shift));
         }
         if arrivals.last() != Some(&stream.len()) {
             arrivals.push(stream.len());
@@ -514,8 +523,18 @@ fn chain(ctx: &mut Ctx, prop: &'static str) -> R {
                 ctx.nontrivial = depth > 0 || prop == "C16" || prop == "C15";
                 break;
             }
-            Terminal::Stuck(s) => fail!("FOREIGN", "", "hop {} stuck in {}", depth, s),
-            Terminal::Error(s, e) => fail!("FOREIGN", "", "hop {} failed in {}: {}", depth, s, e),
+            Terminal::Stuck(s) => {
+                if prop == "C15" && is_redirect_status {
+                    fail!("C15.no_redirect_state", "stuck", "{} answered with {}: the flow is stuck in {} and never enters the Redirect state (path {})", cur.method, status, s, obs.edges.iter().map(|e| e.1).collect::<Vec<_>>().join(">"));
+                }
+                fail!("FOREIGN", "", "hop {} stuck in {}", depth, s)
+            }
+            Terminal::Error(s, e) => {
+                if prop == "C15" && is_redirect_status {
+                    fail!("C15.no_redirect_state", "error", "{} answered with {}: the flow failed in {} ({}) and never enters the Redirect state", cur.method, status, s, e);
+                }
+                fail!("FOREIGN", "", "hop {} failed in {}: {}", depth, s, e)
+            }
         };
         if prop == "C15" {
             let st = lib("Flow<Redirect>::status", || red.status().as_u16());
